@@ -83,4 +83,216 @@ theorem getD_toNat_lt (px : Bytes) (k : Nat) : (px.map (·.toNat)).getD k 0 < 25
   | none => simp
   | some b => simpa using b.toNat_lt
 
+/-! ### taking lists of known length apart -/
+
+theorem length_succ {α} (l : List α) (n : Nat) (h : l.length = n + 1) :
+    ∃ a t, l = a :: t ∧ t.length = n := by
+  cases l with
+  | nil => simp at h
+  | cons a t => exact ⟨a, t, rfl, by simpa using h⟩
+
+theorem length_three {α} (l : List α) (h : l.length = 3) : ∃ a b c, l = [a, b, c] := by
+  obtain ⟨a, t1, rfl, h1⟩ := length_succ l 2 h
+  obtain ⟨b, t2, rfl, h2⟩ := length_succ t1 1 h1
+  obtain ⟨c, t3, rfl, h3⟩ := length_succ t2 0 h2
+  exact ⟨a, b, c, by rw [List.eq_nil_of_length_eq_zero h3]⟩
+
+theorem length_four {α} (l : List α) (h : l.length = 4) : ∃ a b c d, l = [a, b, c, d] := by
+  obtain ⟨a, t1, rfl, h1⟩ := length_succ l 3 h
+  obtain ⟨b, c, d, rfl⟩ := length_three t1 h1
+  exact ⟨a, b, c, d, rfl⟩
+
+theorem length_two {α} (l : List α) (h : l.length = 2) : ∃ a b, l = [a, b] := by
+  obtain ⟨a, t1, rfl, h1⟩ := length_succ l 1 h
+  obtain ⟨b, t2, rfl, h2⟩ := length_succ t1 0 h1
+  exact ⟨a, b, by rw [List.eq_nil_of_length_eq_zero h2]⟩
+
+theorem length_six {α} (l : List α) (h : l.length = 6) : ∃ a b c d e f, l = [a, b, c, d, e, f] := by
+  obtain ⟨a, t1, rfl, h1⟩ := length_succ l 5 h
+  obtain ⟨b, t2, rfl, h2⟩ := length_succ t1 4 h1
+  obtain ⟨c, d, e, f, rfl⟩ := length_four t2 h2
+  exact ⟨a, b, c, d, e, f, rfl⟩
+
+theorem length_eight {α} (l : List α) (h : l.length = 8) :
+    ∃ a b c d e f g k, l = [a, b, c, d, e, f, g, k] := by
+  obtain ⟨a, t1, rfl, h1⟩ := length_succ l 7 h
+  obtain ⟨b, t2, rfl, h2⟩ := length_succ t1 6 h1
+  obtain ⟨c, d, e, f, g, k, rfl⟩ := length_six t2 h2
+  exact ⟨a, b, c, d, e, f, g, k, rfl⟩
+
+/-- stored pixels of an image made by mapping every stored pixel to `m` bytes -/
+theorem chunks_flatMap (f : Bytes → Bytes) (m : Nat) (hm : 0 < m) (pxs : List Bytes)
+    (h : ∀ px ∈ pxs, (f px).length = m) : chunksExact m (pxs.flatMap f) = pxs.map f := by
+  rw [List.flatMap_def]
+  apply chunksExact_flatten m hm
+  intro q hq
+  obtain ⟨px, hpx, rfl⟩ := List.mem_map.mp hq
+  exact h px hpx
+
+/-! ### the first loop of `reduced_alpha_channel` without alpha optimisation -/
+
+def opaqueStep (colored : Nat) (st : Bool × Bool × List UInt8) (px : Bytes) : Bool × Bool × List UInt8 :=
+  if (!st.1) = true then st
+  else if ((px.drop colored).any fun x => decide (x ≠ 255)) = true then (false, st.2.1, st.2.2) else st
+
+theorem opaque_scan (colored : Nat) : ∀ (pxs : List Bytes) (st : Bool × Bool × List UInt8), st.2.1 = false →
+    (pxs.foldl (opaqueStep colored) st).2.1 = false ∧
+    ((pxs.foldl (opaqueStep colored) st).1 = true →
+      ∀ px ∈ pxs, ((px.drop colored).any fun x => decide (x ≠ 255)) = false) := by
+  intro pxs
+  induction pxs with
+  | nil => intro st h; simp [h]
+  | cons px pxs ih =>
+    intro st h
+    simp only [List.foldl_cons]
+    have h2 : (opaqueStep colored st px).2.1 = false := by
+      unfold opaqueStep; split
+      · exact h
+      · split <;> simp [h]
+    obtain ⟨i1, i2⟩ := ih (opaqueStep colored st px) h2
+    refine ⟨i1, ?_⟩
+    intro hr q hq
+    have hall := i2 hr
+    cases List.mem_cons.mp hq with
+    | inr hq' => exact hall q hq'
+    | inl hq' =>
+      subst hq'
+      -- the step on q cannot have failed, else the flag would stay false
+      cases hany : ((q.drop colored).any fun x => decide (x ≠ 255))
+      · rfl
+      · exfalso
+        have hf : (opaqueStep colored st q).1 = false := by
+          unfold opaqueStep; split
+          · rename_i h1; simpa using h1
+          · simp [hany]
+        -- once false, stays false
+        have stay : ∀ (l : List Bytes) (s : Bool × Bool × List UInt8), s.1 = false →
+            (l.foldl (opaqueStep colored) s).1 = false := by
+          intro l
+          induction l with
+          | nil => intro s hs; simpa using hs
+          | cons a l ihl =>
+            intro s hs
+            simp only [List.foldl_cons]
+            apply ihl
+            unfold opaqueStep; simp [hs]
+        rw [stay pxs _ hf] at hr
+        cases hr
+
+/-- sample width in bytes used by the reductions (`bytes_per_channel`) -/
+def bdOf (d : Nat) : Nat := if d = 16 then 2 else 1
+
+/-- colour type after dropping the alpha channel without a key -/
+def noAlphaCt : ColorType → ColorType
+  | .grayAlpha => .gray none
+  | _ => .rgb none
+
+theorem reducedAlpha_false_char (i j : Img) (h : reducedAlphaChannel i false = some j) :
+    i.ihdr.ct.hasAlpha = true ∧
+    (∀ px ∈ chunksExact i.bppBytes i.data,
+      ((px.drop (i.bppBytes - bdOf i.ihdr.depth)).any fun x => decide (x ≠ 255)) = false) ∧
+    j = ⟨{ i.ihdr with ct := noAlphaCt i.ihdr.ct },
+         (chunksExact i.bppBytes i.data).flatMap (·.take (i.bppBytes - bdOf i.ihdr.depth))⟩ := by
+  unfold reducedAlphaChannel at h
+  simp only [Bool.false_and, Bool.false_eq_true, if_false] at h
+  have hbd : i.bytesPerChannel = bdOf i.ihdr.depth := rfl
+  have hbpp : i.channelsPerPixel * i.bytesPerChannel = i.bppBytes := Nat.mul_comm _ _
+  rw [hbpp, hbd] at h
+  have facts := opaque_scan (i.bppBytes - bdOf i.ihdr.depth) (chunksExact i.bppBytes i.data) (true, false, []) rfl
+  unfold opaqueStep at facts
+  generalize List.foldl _ (true, false, []) (chunksExact i.bppBytes i.data) = scan at h facts
+  obtain ⟨f1, f2⟩ := facts
+  cases ha : i.ihdr.ct.hasAlpha
+  case false => simp [ha] at h
+  case true =>
+    simp only [ha, Bool.not_true, Bool.false_eq_true, if_false, f1] at h
+    cases hs : scan.1
+    case false => simp [hs] at h
+    case true =>
+      simp only [hs, Bool.not_true, Bool.false_eq_true, if_false, Option.some.injEq] at h
+      refine ⟨rfl, f2 hs, ?_⟩
+      subst h
+      cases hc : i.ihdr.ct <;> simp [hc, ColorType.hasAlpha] at ha <;> simp [noAlphaCt]
+
+theorem any_ne_false (l : Bytes) (h : (l.any fun x => decide (x ≠ 255)) = false) : ∀ x ∈ l, x = 255 := by
+  intro x hx
+  have := List.any_eq_false.mp h x hx
+  simpa using this
+
+
+/-! ### `build_palette` -/
+
+theorem idxOf?_some {α} [BEq α] [LawfulBEq α] (l : List α) (a : α) (k : Nat) (h : l.idxOf? a = some k) :
+    l[k]? = some a := by
+  unfold List.idxOf? at h
+  obtain ⟨hk, hp, _⟩ := List.findIdx?_eq_some_iff_getElem.mp h
+  rw [List.getElem?_eq_getElem hk]
+  simp at hp
+  rw [hp]
+
+theorem ofNat_toNat_lt (k : Nat) (h : k < 256) : (UInt8.ofNat k).toNat = k := by
+  rw [UInt8.toNat_ofNat']; exact Nat.mod_eq_of_lt h
+
+/-- what `build_palette` returns: every produced index points at its pixel -/
+theorem buildPalette_spec : ∀ (pxs pal : List Bytes) (acc : Bytes) (pmap : List Bytes) (raw : Bytes),
+    buildPalette pxs pal acc = some (pmap, raw) → pal.length ≤ 256 →
+    ∃ idxs, raw = acc.reverse ++ idxs ∧ idxs.map (fun b => pmap[b.toNat]?) = pxs.map some ∧
+      (∃ ext, pmap = pal ++ ext) ∧ pmap.length ≤ 256 := by
+  intro pxs
+  induction pxs with
+  | nil =>
+    intro pal acc pmap raw h hl
+    simp only [buildPalette, Option.some.injEq, Prod.mk.injEq] at h
+    obtain ⟨rfl, rfl⟩ := h
+    exact ⟨[], by simp, rfl, ⟨[], by simp⟩, hl⟩
+  | cons px rest ih =>
+    intro pal acc pmap raw h hl
+    simp only [buildPalette] at h
+    cases hi : pal.idxOf? px with
+    | some idx =>
+      simp only [hi] at h
+      obtain ⟨idxs, h1, h2, ⟨ext, h3⟩, h4⟩ := ih pal _ pmap raw h hl
+      have hget := idxOf?_some pal px idx hi
+      have hlt : idx < pal.length := by
+        cases Nat.lt_or_ge idx pal.length with
+        | inl hh => exact hh
+        | inr hh => rw [List.getElem?_eq_none hh] at hget; cases hget
+      refine ⟨UInt8.ofNat idx :: idxs, by simp [h1], ?_, ⟨ext, h3⟩, h4⟩
+      simp only [List.map_cons, h2, List.cons.injEq, and_true]
+      rw [ofNat_toNat_lt idx (by omega), h3, List.getElem?_append_left hlt, hget]
+    | none =>
+      simp only [hi] at h
+      by_cases h256 : pal.length = 256
+      · simp [h256] at h
+      · simp only [h256, if_false] at h
+        obtain ⟨idxs, h1, h2, ⟨ext, h3⟩, h4⟩ := ih (pal ++ [px]) _ pmap raw h (by simp; omega)
+        refine ⟨UInt8.ofNat pal.length :: idxs, by simp [h1], ?_, ⟨px :: ext, by simp [h3]⟩, h4⟩
+        simp only [List.map_cons, h2, List.cons.injEq, and_true]
+        rw [ofNat_toNat_lt pal.length (by omega), h3]
+        simp
+
+def entryPx (e : Rgba) : Px := ⟨e.r.toNat * 257, e.g.toNat * 257, e.b.toNat * 257, e.a.toNat * 257⟩
+
+theorem ofNat_eq_iff (k : Nat) (g : UInt8) : UInt8.ofNat k = g ↔ k % 256 = g.toNat := by
+  constructor
+  · intro h; rw [← h, UInt8.toNat_ofNat']
+  · intro h
+    apply UInt8.toNat_inj.mp
+    rw [UInt8.toNat_ofNat', h]
+
+theorem chunksExact_one {α} (l : List α) : chunksExact 1 l = l.map fun b => [b] := by
+  induction l with
+  | nil => rfl
+  | cons a l ih =>
+    have := chunksExact_append 1 (by decide) [a] l rfl
+    simpa [ih] using this
+
+theorem colourOf_indexed (pal : List Rgba) (d k : Nat) :
+    colourOf (.indexed pal) d [k] = match pal[k]? with
+      | some e => entryPx e
+      | none => ⟨0, 0, 0, 65535⟩ := by
+  simp only [colourOf, List.getD_cons_zero, entryPx]
+  rfl
+
+
 end OxiModel.Spec
